@@ -7,7 +7,8 @@ Record sinput := {
   i_now : N; i_ent : entity; i_req : request;
   i_dates : list (bytes * option N);
   i_streams : list (list ev);
-  i_npolls : nat
+  i_npolls : nat;
+  i_hints : val
 }.
 
 Definition dec_hdrs := vlist (vpair vbytes vbytes).
@@ -39,12 +40,12 @@ Definition dec_ev (v : val) : option ev :=
   end.
 Definition dec_sinput (v : val) : option sinput :=
   match v with
-  | VL [now; ent; req; dates; streams; np] =>
+  | VL [now; ent; req; dates; streams; np; hints] =>
       match vnum now, dec_entity ent, dec_request req, vlist (vpair vbytes (vopt vnum)) dates,
             vlist (vlist dec_ev) streams, vnum np with
       | Some now, Some ent, Some req, Some dates, Some streams, Some np =>
           Some {| i_now := now; i_ent := ent; i_req := req; i_dates := dates; i_streams := streams;
-                  i_npolls := N.to_nat np |}
+                  i_npolls := N.to_nat np; i_hints := hints |}
       | _, _, _, _, _, _ => None
       end
   | _ => None
@@ -124,11 +125,28 @@ Fixpoint cmp_polls (idx : N) (m i : list val) : list val :=
   | _, _ => [finding K_DIVERGE F_POLLS (VL m) (VL i)]
   end.
 
+(* response headers are compared name by name, as multisets of values *)
+Fixpoint dedup (l : list bytes) : list bytes :=
+  match l with
+  | [] => []
+  | x :: t => if existsb (beq_bytes x) t then dedup t else x :: dedup t
+  end.
+Definition hdr_vals (name : bytes) (h : list val) : list val :=
+  flat_map (fun kv => match kv with VL [VB k; v] => if beq_bytes k name then [v] else [] | _ => [] end) h.
+Definition hdr_names (h : list val) : list bytes :=
+  flat_map (fun kv => match kv with VL [VB k; _] => [k] | _ => [] end) h.
+Definition F_HDR := bs "hdr:"%string.
+Definition cmp_hdrs (mh ih : list val) : list val :=
+  flat_map (fun name =>
+              let mv := hdr_vals name mh in let iv := hdr_vals name ih in
+              if multiset_eqb mv iv then [] else [finding K_DIVERGE (F_HDR ++ name) (VL mv) (VL iv)])
+           (dedup (hdr_names mh ++ hdr_names ih)).
+
 Definition cmp_obs (model impl : val) : list val :=
   match model, impl with
   | VL [ms; VL mh; mh0; me0; VL mp; mc], VL [is_; VL ih; ih0; ie0; VL ip; ic] =>
       cmp_field F_STATUS ms is_
-      ++ (if multiset_eqb mh ih then [] else [finding K_DIVERGE F_HDRS (VL mh) (VL ih)])
+      ++ cmp_hdrs mh ih
       ++ cmp_field F_HINT0 mh0 ih0 ++ cmp_field F_EOS0 me0 ie0
       ++ cmp_polls 0 mp ip ++ cmp_field F_CALLS mc ic
   | _, _ => cmp_field F_SHAPE model impl
